@@ -201,18 +201,20 @@ def r10e(ck, fb):
     a = ck.body(CL + 'add', 'R10e')
     if a:
         MAPOP = r'(HashMap::<K, V, S, A>|BTreeMap::<K, V, A>)::(insert|get_mut|entry)$'
-        w_l = util.mut_calls_on_field(a, 'listener', MAPOP)
-        w_s = util.mut_calls_on_field(a, 'sender_map', MAPOP)
-        w_t = util.mut_calls_on_field(a, 'time_listener', MAPOP)
+        # the three updates may live in private helpers of ConfigListener (extract-method): look through the region of add()
+        reg = util.region(fb, a)
+        w_l = [(x, s) for x in reg for s in util.mut_calls_on_field(x, 'listener', MAPOP)]
+        w_s = [(x, s) for x in reg for s in util.mut_calls_on_field(x, 'sender_map', MAPOP)]
+        w_t = [(x, s) for x in reg for s in util.mut_calls_on_field(x, 'time_listener', MAPOP)]
         ck.require(len(w_l) >= 1 and len(w_s) >= 1 and len(w_t) >= 1, 'R10e', 'add:three-indexes', a.where(), 'ConfigListener::add does not update listener, sender_map and time_listener')
         # the per-key registration is inside the loop over items
-        inl = [s for s in w_l if s.bb in cfg.reach_from(a, [a.blocks[s.bb]['t']['t']])]
+        inl = [s for (x, s) in w_l if x.blocks[s.bb]['t'].get('t') is not None and s.bb in cfg.reach_from(x, [x.blocks[s.bb]['t']['t']])]
         ck.require(bool(inl), 'R10e', 'add:every-key', a.where(), 'not every key of the request is registered')
         ck.require('version' in util.assigned_fields(a), 'R10e', 'add:new-version', a.where(), 'registrations share a version id')
-        for s in w_s:
-            ck.require(not any(x[0] in ('cmp', 'call') for x in cfg.guard_atoms(a, s.bb)), 'R10e', 'add:sender-stored-unconditionally', s.where(), 'the sender is stored only conditionally')
+        for (x, s) in w_s:
+            ck.require(not any(y[0] in ('cmp', 'call') for y in cfg.guard_atoms(x, s.bb)), 'R10e', 'add:sender-stored-unconditionally', s.where(), 'the sender is stored only conditionally')
         # the sender stored is the one of this request, under the new version
-        ins = [s for s in w_s if s.callee.endswith('insert')]
+        ins = [s for (x, s) in w_s if x is a and s.callee.endswith('insert')]
         if ins:
             t = Taint(a, local_src=[3])
             ck.require(t.op_tainted(ins[0].args[2]), 'R10e', 'add:stores-this-sender', ins[0].where(), 'the stored sender is not the request\'s sender')
